@@ -557,7 +557,7 @@ def main():
         "order), scripted random reads x column subsets x unit requests. Non-trivial: an append onto an existing table (histories); "
         "more than one row in non-sorted order or a unit conversion (batch reads).",
     )
-    depth = 3 if chk.quick else 4
+    depth = 3 if chk.quick else 8
     chk.bounds = {"history_depth": depth}
     chk.merge(bfs(chk, depth))
     fits = [dict(kind="fits", history=h) for h in
